@@ -212,6 +212,17 @@ func exec(c px.Context, op string, args []sx.Sexp) (res core.Result) {
 	if op == "cache" {
 		return execCache(args)
 	}
+	if op == "declq" {
+		return execDeclq(c, args)
+	}
+	if op == "declstress" {
+		return execDeclStress(c, args)
+	}
+	if op == "queuerace" && len(args) == 0 {
+		// answered by the model side from the regenerated table of the guarded package-level queues: `none`, or the site
+		// that lets a slice escape its critical section while the guarded variable keeps the backing array
+		return core.Result{Out: "none", Pred: "ok"}
+	}
 	if op == "files" {
 		return execFiles(args)
 	}
@@ -914,6 +925,8 @@ func gen(g *core.G) {
 	genCache(g)
 	// file-based loading: the per-name instantiation lock
 	genFiles(g)
+	// the declare / resolve queue
+	genDeclq(g)
 
 	// 3. malformed
 	for _, l := range []string{
